@@ -83,3 +83,16 @@ pub fn rust_shape(t: &T, a: &Asg) -> Value {
         T::IMul(x, y) => json!(["Multiply", rust_shape(x, a), rust_shape(y, a)]),
     }
 }
+
+/// preorder list of [variant, number of children] (AstShape!Flat): the form the recorded events carry
+pub fn flat(v: &Value) -> Value {
+    fn go(v: &Value, out: &mut Vec<Value>) {
+        if let Some(a) = v.as_array() {
+            out.push(json!([a[0], a.len() - 1]));
+            for k in &a[1..] { go(k, out); }
+        }
+    }
+    let mut out = Vec::new();
+    go(v, &mut out);
+    Value::Array(out)
+}
